@@ -25,7 +25,7 @@ healed; delivery is judged at EventHandler.handle_message and UdpClient.getMessa
 Server.v (unit srv_run).
 
 (e) LONG-LIVED connections (wrap_session, random sessions "rw*"): the 16-bit datagram and message counters of both sides start
-0..41 below the ring maximum 65535 (model side: unit conn_run_from) while both sides exchange a datagram per frame; each side sends
+0..50 below the ring maximum 65535 (after a lead-in of one loss-free round trip, so that the peers' headers carry real ack numbers) (model side: unit conn_run_from) while both sides exchange a datagram per frame; each side sends
 a guaranteed message whose first datagram has the wire number 65535-k, for every k = 0..33, and every datagram carrying it is lost
 until the sender's own counter has wrapped to a number 1..8 (so the first acknowledgement that could mention the lost datagram
 arrives with an ack number that is already past the wrap); then the network heals.  Lengths unfragmented and fragmented, latency
@@ -136,7 +136,7 @@ def overtaken_session(run, rng, label, newer, mtu):
 
 
 RING = 65535
-WRAP_RULE = ("long-lived connections: datagram / message counters of both sides started 0..41 below 65535; a guaranteed send whose first "
+WRAP_RULE = ("long-lived connections: datagram / message counters of both sides started 0..50 below 65535 (lead-in of one loss-free round trip); a guaranteed send whose first "
              "datagram has the wire number 65535-k for every k in 0..33 (both roles in the same session, different k), every datagram "
              "carrying it lost until the sender's counter has wrapped to 1..8, background traffic of one datagram per frame in both "
              "directions, latency 0/1/4 frames, unfragmented and fragmented lengths, then healed; plus random lossy sessions started "
@@ -151,8 +151,12 @@ def wire(n):
 def wrap_session(run, rng, label, mtu, ks, lengths, delay):
     """ks = {who: k}: `who` sends a guaranteed message whose first datagram is numbered 65535-k; see (e)"""
     cfg = {"loss": 0, "dup": 0, "reorder": 0, "tick": 300, "delay": delay}
-    lead = {w: rng.randrange(2, 9) for w in ks}
-    start = {w: [RING - min(41, ks[w] + lead[w]), RING - rng.randrange(0, 41)] for w in ("client", "server") if w in ks}
+    # lead-in: the peer's first headers say ack = 0 ("nothing received yet"), which the ring arithmetic reads as datagram 65535
+    # (SeqNum(0).diff(65535) == 0); a connection whose counter is near 65535 has long been receiving acknowledgements, so the
+    # counters start early enough for real ack numbers to have come back (one round trip) before the datagram under test is sent
+    need = 2 * (delay // cfg["tick"]) + 3
+    lead = {w: need + rng.randrange(0, 6) for w in ks}
+    start = {w: [RING - (ks[w] + lead[w]), RING - rng.randrange(0, 41)] for w in ("client", "server") if w in ks}
     for w in ("client", "server"):
         start.setdefault(w, [RING - rng.randrange(0, 41), RING - rng.randrange(0, 41)])
     net = netsim.Net(run, rng, cfg, mtu=mtu, seq0=start["client"], seq0_server=start["server"])
@@ -202,9 +206,18 @@ def random_session(run, rng, label, steps, below_wrap=False):
            "delay": rng.choice([0, 300, 1200, 4500])}
     mtu = rng.choice([1500, 512, 576, 1095, 1096, 1280])
     if below_wrap:
-        # long-lived connections: both counters of both sides cross the ring wrap somewhere in the lossy phase
-        net = netsim.Net(run, rng, cfg, mtu=mtu, seq0=[RING - rng.randrange(0, 41), RING - rng.randrange(0, 41)],
-                         seq0_server=[RING - rng.randrange(0, 41), RING - rng.randrange(0, 41)])
+        # long-lived connections: both counters of both sides cross the ring wrap somewhere in the lossy phase.  Lead-in (see
+        # wrap_session): one loss-free round trip of background traffic, so that real ack numbers (not the initial ack = 0) are
+        # what the peers tell each other by the time datagram 65535 is sent
+        warm = 2 * (cfg["delay"] // cfg["tick"]) + 3
+        net = netsim.Net(run, rng, dict(cfg, loss=0, dup=0, reorder=0), mtu=mtu,
+                         seq0=[RING - warm - rng.randrange(1, 9), RING - rng.randrange(0, 41)],
+                         seq0_server=[RING - warm - rng.randrange(1, 9), RING - rng.randrange(0, 41)])
+        for _ in range(warm):
+            for who in ("client", "server"):
+                net.send(who, 3, 0, with_cb=False)
+            net.step()
+        net.cfg = cfg
     else:
         net = netsim.Net(run, rng, cfg, mtu=mtu)
     try:
